@@ -217,6 +217,12 @@ impl Generation {
         );
         Generation(self.0 + 1)
     }
+
+    /// Verification hook: the raw generation number.
+    #[cfg(gluon_verif)]
+    pub fn verif_raw(self) -> i32 {
+        self.0
+    }
 }
 
 /// A mark and sweep garbage collector.
